@@ -412,7 +412,9 @@ impl RoaringTreemap {
     /// assert_eq!(clone, original);
     /// ```
     pub fn from_bitmaps<I: IntoIterator<Item = (u32, RoaringBitmap)>>(iterator: I) -> Self {
-        RoaringTreemap { map: iterator.into_iter().collect() }
+        RoaringTreemap {
+            map: iterator.into_iter().filter(|(_, bitmap)| !bitmap.is_empty()).collect(),
+        }
     }
 }
 
